@@ -37,7 +37,9 @@ Coin == {"none", "bound_on_sphere", "tied_bounds", "bound_at_delta", "bound_then
 \* Convex kernels: are the user's sets active inside the trust region?  "inside": every set contains the whole trust region around xopt's neighbourhood
 \* (only the ball binds); "active": every set's boundary passes within the trust region and the descent direction points at it, so the step is decided by
 \* the alternating projections onto the sets AND the ball (rel: two half-spaces in general position / nearly parallel - slow convergence of the projections)
-Act == {"inside", "active"}
+\* "just_outside": every set inactive and the unconstrained minimiser of an isotropic model (the gradient of a linear one) a relative 1e-7 .. 1e-5
+\* beyond the sphere - the ball projection that ends every sweep has to act on a point that is almost on the boundary
+Act == {"inside", "active", "just_outside"}
 Rel == {"generic", "near_parallel"}
 VARIABLES kernel, n, pos, sgn, hk, sets, coin, act, rel
 vars == <<kernel, n, pos, sgn, hk, sets, coin, act, rel>>
@@ -56,11 +58,12 @@ Init == \/ /\ kernel = "trsbox" /\ n \in 1..MaxN /\ pos \in [1..n -> Pos] /\ sgn
         \/ /\ kernel = "trsbox_geometry" /\ n \in 1..MaxN /\ pos \in [1..n -> Pos] /\ sgn \in [1..n -> Sgn] /\ hk = "zero" /\ sets = <<>> /\ coin = "none" /\ act = "inside" /\ rel = "generic"
         \/ /\ kernel \in {"ctrsbox_pgd", "ctrsbox_geometry", "ctrsbox_sfista"} /\ n \in 2..3 /\ pos = [i \in 1..n |-> "in"] /\ sgn \in [1..n -> {"neg", "pos"}]
            /\ act \in Act /\ rel \in Rel
-           /\ (act = "active" => sgn = [i \in 1..n |-> "neg"])       \* the gradient is then directed at the sets' boundaries, not by sign pattern
-           /\ (rel = "near_parallel" => act = "active" /\ sets = <<"half", "half">>)
+           /\ (act \in {"active", "just_outside"} => sgn = [i \in 1..n |-> "neg"])
            /\ hk \in {"zero", "psd_full", "psd_lowrank"}
            /\ (kernel = "ctrsbox_pgd" => hk # "zero")    \* the projected-gradient step length is 1/||H||: a zero Hessian is outside its domain (J = 0)
            /\ sets \in {<<a>> : a \in SetKind} \cup {<<a, b>> : a, b \in SetKind}
+           /\ (rel = "near_parallel" => act = "active" /\ sets = <<"half", "half">>)
+           /\ (act = "just_outside" => hk = "psd_full" /\ Len(sets) = 1)
            /\ coin = "none"
 Next == UNCHANGED vars
 Spec == Init /\ [][Next]_vars
